@@ -521,6 +521,8 @@ impl Bdd {
 
     fn generate_var_dependencies(&mut self) {
         #[cfg(feature = "variablelist")]
+        self.var_deps.clear();
+        #[cfg(feature = "variablelist")]
         self.nodes.iter().for_each(|node| {
             if node.var() >= Var::BOT {
                 self.var_deps.push(HashSet::new());
